@@ -109,6 +109,7 @@ def analyse_scripted(ops, impl, model, spec):
                 if ad.get('self') == '1': res['branches']['selfconnect'] += 1
                 if ad.get('local') == '0': res['branches']['nolocal'] += 1
             if len(o.split(' :: ')) > 2: res['branches']['retry'] += 1
+            if kv(o.split(' :: ')[0]).get('reg', '0') != '0' and d.get('err', '').startswith('register'): res['branches']['regerr'] += 1
             if len(res['samples']) < 3:
                 res['samples'].append(o + '  =>  ' + im)
         if sp.startswith('IMPL-SPEC-FAIL'):
